@@ -464,7 +464,11 @@ func writerScenario(s *Sim, params map[string]string) {
 	for i := 0; i < ntop; i++ {
 		name := fmt.Sprintf("t%d", i)
 		topics = append(topics, name)
-		cl.AddTopic(name, t.Range("cfg", 1, 4), func(int) int32 { return int32(1 + t.Intn("cfg", nb)) })
+		nparts := t.Range("cfg", 1, 4)
+		if params["focus"] == "order" {
+			nparts = t.Range("cfg", 1, 2)
+		}
+		cl.AddTopic(name, nparts, func(int) int32 { return int32(1 + t.Intn("cfg", nb)) })
 	}
 
 	st := &writerState{s: s, cl: cl, byID: map[string]*wmsg{}}
@@ -493,9 +497,18 @@ func writerScenario(s *Sim, params map[string]string) {
 		moves = t.Range("cfg", 0, 3)
 	}
 
+	focus := params["focus"]
 	st.batchSize = Pick(t, "cfg", 1, 2, 3, 5, 10, 100)
+	if focus == "order" {
+		st.batchSize = Pick(t, "cfg", 2, 2, 3, 4)
+	}
 	st.batchBytes = int64(Pick(t, "cfg", 1048576, 1048576, 400, 150, 2000))
 	st.async = t.Intn("cfg", 4) == 0
+	if focus == "order" {
+		// one submitter can only have several batches of a partition in flight
+		// when its calls do not wait for each other
+		st.async = t.Intn("cfg", 4) != 0
+	}
 	st.acks = Pick(t, "cfg", kafka.RequireOne, kafka.RequireAll)
 	st.writeTimeout = Pick(t, "cfg", 10*time.Second, time.Second, 400*time.Millisecond)
 	tr := &kafka.Transport{Dial: n.Dialer("writer"), ClientID: "sim-writer", MetadataTTL: Pick(t, "cfg", 6*time.Second, time.Second, 200*time.Millisecond),
@@ -507,6 +520,7 @@ func writerScenario(s *Sim, params map[string]string) {
 		BatchSize:    st.batchSize,
 		BatchBytes:   st.batchBytes,
 		BatchTimeout: Pick(t, "cfg", time.Millisecond, 10*time.Millisecond, 50*time.Millisecond, time.Second),
+		Logger:       kafka.LoggerFunc(func(string, ...interface{}) {}),
 		MaxAttempts:  Pick(t, "cfg", 1, 2, 3, 4, 10),
 		RequiredAcks: st.acks,
 		Async:        st.async,
@@ -580,10 +594,16 @@ func writerScenario(s *Sim, params map[string]string) {
 	for a := 0; a < nact; a++ {
 		a := a
 		ncalls := t.Range("work", 1, 6)
+		if focus == "order" {
+			ncalls = t.Range("work", 4, 14)
+		}
 		s.Go(fmt.Sprintf("w%d", a), func() {
 			seq := 0
 			for ci := 0; ci < ncalls; ci++ {
 				k := t.Range("work", 1, 5)
+				if focus == "order" {
+					k = t.Range("work", 1, st.batchSize)
+				}
 				c := &wcall{actor: a, call: ci}
 				msgs := make([]kafka.Message, k)
 				reject := ""
@@ -662,7 +682,12 @@ func writerScenario(s *Sim, params map[string]string) {
 					cancel()
 				}
 				if t.Intn("work", 3) == 0 {
-					s.Sleep(time.Duration(t.Range("work", 0, 100)) * time.Millisecond)
+					if focus == "order" {
+						// submissions timed around the batch timer: before, at and just after its expiry
+						s.Sleep(w.BatchTimeout + time.Duration(t.Range("work", -2, 2))*time.Millisecond/2)
+					} else {
+						s.Sleep(time.Duration(t.Range("work", 0, 100)) * time.Millisecond)
+					}
 				} else {
 					s.Pause("op")
 				}
